@@ -22,8 +22,10 @@ import time
 from .. import common
 from ..common import log
 from . import c03_asm
+from . import c03_data
 from . import c03_names
 from . import c03_opts
+from . import c03_trees
 
 PROP = "C03"
 INC = os.path.join(common.REPO, "include")
@@ -903,6 +905,22 @@ def run(args):
         samples += np_["samples"]
         notes += np_["notes"]
 
+        # ------------------------------------------------------------------ keyed containers under -A / listing walks (vlib/props/c03_trees.py)
+        # and the data / fill / reservation statements of every target beyond the initial code buffer (vlib/props/c03_data.py)
+        for key, mod in (("keyed_containers", c03_trees), ("data_statements", c03_data)):
+            t_p = time.time()
+            r_ = mod.run_part(args, flavours, wd, lambda *a, **k: run_limited(*a, **dict(dict(out_max=60000), **k)), parallel, drv_ok,
+                              sigfn=lambda text, oc: asl_sig(dict(src=text), oc))
+            spec_fail += r_["spec_fail"]
+            corr_fail += r_["corr_fail"]
+            proof_problems += r_["problems"]
+            distinct |= r_["distinct"]
+            dist[key] = r_["dist"]
+            dist[key + "_wall_s"] = round(time.time() - t_p, 2)
+            dist["asl_runs"] += r_["evaluations"]
+            samples += r_["samples"]
+            notes += r_["notes"]
+
         # ------------------------------------------------------------------ utilities (model + spec)
         guard, guard_res = probe_gran_guard(bdir, wd)
         notes.append("granularity-0 guard probe (witness file, per tool): %s -> model flags granCheck=%s" % (guard_res, guard))
@@ -1098,7 +1116,12 @@ def run(args):
              "every list printed at the end of the run, always with a listing requested, plus whole programs of such statements; val-recursion = VAL of string symbols that call VAL / user "
              "functions / themselves (cycles of 1-4 symbols, FUNCTION bodies calling VAL, nested VAL, finite chains of depth 1..1000) in 14 kinds of use sites; output-options = BINCLUDE of "
              "files of 64..5000 bytes, DUP / [n] repetitions and DS beyond the 512-byte code buffer, SAVE/RESTORE, PHASE, SEGMENT, SHARED, INCLUDE under +G / unusual output paths / side outputs; "
-             "corpus files may carry `; asl-options:`" % (len(PSEUDO), 8, len(c03_opts.LIST_PSEUDO)),
+             "corpus files may carry `; asl-options:`; keyed containers = error-free programs of 5..4000 definitions (EQU, labels, SET with redefinitions, the same names in several "
+             "sections, macros, structures, functions, code pages, temporary / nameless symbols, mixed) in ascending / descending / zig-zag / middle-out / bit-reversed / sorted-run / random "
+             "order, numbered names, names with a common prefix of 8..200 characters, mixed case, each under {plain, -A} x {no listing, -L -C -s}: status 0, equal code files, equal listings, "
+             "sorted symbol table holding exactly the defined names; data statements = per code generator module one CPU, the statement names of doc/pseudo-instructions.md 'Data Definitions' "
+             "+ the *pseudo*.c modules + code*.c handlers named after them x 8 operand shapes, the ones whose code length grows with the count (probed) run alone with counts 127..257 and "
+             "300..70000 (quick: one near + one far count and one shape per statement; thorough: all, sanitizer + plain build)" % (len(PSEUDO), 8, len(c03_opts.LIST_PSEUDO)),
         samples=samples, distribution=dist, builds=[f for f, _ in flavours])
     res.notes += notes
     res.assumptions = ["termination is claimed only for inputs without WHILE and without self-recursive macros; CPU limit %d s per asl run, %d s per utility run, output limit 8-64 MiB" % (cpu_asl, cpu_tool),
@@ -1115,6 +1138,10 @@ def replay(args):
     with common.Workdir("c03r") as wd:
         if d.get("part") == "c03asm":
             return c03_asm.replay_case(d, bdir, wd, lambda *a, **k: run_limited(*a, out_max=60000, **k))
+        if d.get("part") == "c03trees":
+            return c03_trees.replay_case(d, bdir, wd, lambda *a, **k: run_limited(*a, **dict(dict(out_max=60000), **k)))
+        if d.get("part") == "c03data":
+            return c03_data.replay_case(d, bdir, wd, lambda *a, **k: run_limited(*a, **dict(dict(out_max=60000), **k)))
         if d.get("part") == "c03names":
             return c03_names.replay_case(d, bdir, wd, lambda *a, **k: run_limited(*a, out_max=60000, **k))
         if "source" in d:
